@@ -332,6 +332,10 @@ func genPowPair(t *rapid.T) (D, D) {
 		return x, DFin(neg, capCoef(yi), clampExp(e10))
 	case 9:
 		// extreme bases and exponents (analytic overflow / underflow)
+		if ir(t, 0, 1, "extremeY") == 0 {
+			// exponents of any magnitude: y*ln(x) overflows every internal counter, or vanishes
+			return genFiniteNZ(t), DFin(genSign(t), genCoef(t), genExp(t))
+		}
 		return DFin(genSign(t), genCoef(t), genExp(t)), DFin(genSign(t), genCoef(t), ir(t, -40, 40, "ye"))
 	case 10:
 		// x = 2, 3, 5, 7 ... with integer exponents: exact results representable
